@@ -54,6 +54,9 @@ pub fn tech() -> Vec<LayerDef> {
         LayerDef { num: 12, name: "lb", purposes: vec![(31, LayerPurpose::Drawing), (7, LayerPurpose::Other(7)), (33, LayerPurpose::Label), (32, LayerPurpose::Pin), (34, LayerPurpose::Obstruction)] },
         // purpose numbers beyond one byte and below zero; drawing on a non-zero number with purpose 0 left undeclared
         LayerDef { num: 13, name: "lc", purposes: vec![(20, LayerPurpose::Drawing), (256, LayerPurpose::Other(256)), (300, LayerPurpose::Other(300)), (-5, LayerPurpose::Other(-5)), (16, LayerPurpose::Pin), (18, LayerPurpose::Obstruction)] },
+        // layer numbers beyond one byte
+        LayerDef { num: 1000, name: "ld", purposes: vec![(20, LayerPurpose::Drawing), (16, LayerPurpose::Pin), (5, LayerPurpose::Label)] },
+        LayerDef { num: 32767, name: "le", purposes: vec![(0, LayerPurpose::Drawing), (2, LayerPurpose::Label)] },
     ]
 }
 pub fn layer_num(layer: usize) -> i16 {
